@@ -13,6 +13,17 @@
 #include <sys/time.h>
 #include <lp/process.c>
 
+#ifdef VERIF_RG
+/* yield-point atomics (stubs_rg/stdatomic.h): the harness may run another thread's whole operation
+ * before each atomic step of the operation under test */
+unsigned verif_rmw_count;
+static void (*yield_hook)(void);
+void verif_yield(void)
+{
+	if(yield_hook)
+		yield_hook();
+}
+#endif
 struct simulation_configuration global_config;
 __thread rid_t rid;
 nid_t n_nodes = 1, nid;
@@ -714,3 +725,75 @@ void harness_ranti(void)
 	VERIF_ASSERT(unknown_ops == 0, "ranti: no other buffer is touched");
 	VERIF_WITNESS("ranti end reachable");
 }
+
+
+#ifdef VERIF_RG
+/* ---------------- C06: the two sides race on one buffer ---------------- */
+/* The receiver's real process_msg() extracts buffer b (sent by LP 0's event, still fresh) while the
+ * sender's real send_anti_messages() undoing that event runs at ANY atomic step of the receiver
+ * (before its read-modify-write on b's flag word, or after it), or afterwards. */
+static bool cancelled;
+static unsigned sender_rmw;
+static void sender_cancels(void)
+{
+	if(cancelled || !vin_bool())
+		return;
+	cancelled = true;
+	void (*h)(void) = yield_hook;
+	yield_hook = NULL; /* the sender's operation runs to completion */
+	struct lp_ctx *cur = current_lp;
+	unsigned r0 = verif_rmw_count;
+	send_anti_messages(&L[0].p, 0);
+	sender_rmw += verif_rmw_count - r0;
+	current_lp = cur;
+	yield_hook = h;
+}
+void harness_race(void)
+{
+	mk_history(true);
+	struct lp_msg *b = M[INC];
+	b->raw_flags = 0;
+	/* the sender's history: [sent b, event e] */
+	struct lp_msg *e = M[NEW0 + 1];
+	e->dest = 0;
+	e->raw_flags = MSG_FLAG_PROCESSED;
+	array_push(L[0].p.p_msgs, (struct lp_msg *)((uintptr_t)b | 1U));
+	array_push(L[0].p.p_msgs, e);
+	restore_ret = 0;
+	model_sends = 0;
+	bool strag = msg_is_before(b, M[n_hist - 1]);
+	unsigned disp0 = n_disp;
+	int bi = idx_of(b);
+	incoming = b;
+	yield_hook = sender_cancels;
+	unsigned r0 = verif_rmw_count;
+	process_msg();
+	unsigned recv_rmw = verif_rmw_count - r0 - sender_rmw;
+	yield_hook = NULL;
+	bool during = cancelled;
+	if(!cancelled) { /* the sender acts after the receiver finished */
+		cancelled = true;
+		struct lp_ctx *cur = current_lp;
+		send_anti_messages(&L[0].p, 0);
+		current_lp = cur;
+	}
+	bool executed = false;
+	for(unsigned k = disp0; k < MAXD; k++)
+		if(k < n_disp && disp[k].t == b->dest_t && disp[k].type == b->m_type && hist_at(array_count(LP->p.p_msgs) ? array_count(LP->p.p_msgs) - 1 : 0) == b)
+			executed = true;
+	bool in_hist = array_count(LP->p.p_msgs) && hist_at(array_count(LP->p.p_msgs) - 1) == b;
+	/* exactly one of the two legal outcomes */
+	bool dropped = fr[bi] == 1 && !in_hist && ins[bi] == 0;
+	bool pending_anti = in_hist && fr[bi] == 0 && ins[bi] == 1 && b->raw_flags == (MSG_FLAG_ANTI | MSG_FLAG_PROCESSED);
+	VERIF_ASSERT(dropped != pending_anti, "race: the cancelled buffer is either dropped before execution (released once, never queued again) or executed and then queued exactly once as its own anti-message - never both, never neither");
+	VERIF_ASSERT(!dropped || !executed || !in_hist, "race: a dropped buffer is not part of the history");
+	VERIF_ASSERT(array_count(L[0].p.p_msgs) == 0 && (e->raw_flags & MSG_FLAG_PROCESSED) == 0 && ins[NEW0 + 1] == 1, "race: the sender's undone event is re-queued once and its history emptied");
+	VERIF_ASSERT(sender_rmw <= 2 && recv_rmw >= 1, "race: each side touches the flag word of a buffer with one read-modify-write per operation");
+	(void)strag;
+	VERIF_WITNESS("race end reachable");
+	if(during && dropped)
+		VERIF_WITNESS("race: cancel lands before the receiver's read-modify-write (dropped) reachable");
+	if(during && pending_anti)
+		VERIF_WITNESS("race: cancel lands after the receiver's read-modify-write (executed, anti pending) reachable");
+}
+#endif
